@@ -20,7 +20,13 @@
        a glide is complete after a tick of at least LongTick microseconds (assumption: the slowest
        portamento, 1.4 semitones/s, covers the keyboard in 89 s); in between only the range is judged;
      * with vibrato sources active (CC1, channel/key aftertouch) the offset is a sine the specification
-       does not compute: such writes are only compared with the range +-depth (0.5 semitone at 127), as drift. *)
+       does not compute: such writes are only compared with the range +-depth (0.5 semitone at 127), as drift;
+     * a chip channel on which a NoteOn lands while it still carries another tracked note (voice stealing or
+       sharing) is not judged any more in that execution (counter `contended`); the generators keep the number
+       of notes below the number of chip channels;
+     * bank select, program change on the drum channel, CC120/121/123 put a channel out of scope (not judged).
+   Failure labels: pitch, glide-range, glide-end, monotone, bend-skips-keydown, bend-skips-sostenuto-keydown,
+   glide-skips-sostenuto-keydown (at most MaxPerLabel records each). *)
 EXTENDS Pitch, Json, IOUtils
 T == ndJsonDeserialize(IOEnv.TRACE)
 MaxFails == 40          \* in total ...
@@ -69,7 +75,6 @@ InsOf(s, ch, k) ==
      ELSE LET ii == FirstIdx(s.banks[bi].ins, LAMBDA r : r.i = idx) IN IF ii = 0 THEN NoIns ELSE s.banks[bi].ins[ii]
 
 \* ------------------------------------------------------------------ controls
-OfCh(n, ch) == n.ch = ch
 SetChan(s, ch, c) == [s EXCEPT !.chans[ch + 1] = c]
 MapSeq(q, F(_)) == [i \in DOMAIN q |-> F(q[i])] \o <<>>
 MapNotes(s, F(_)) == [s EXCEPT !.notes = MapSeq(s.notes, F)]
